@@ -1348,7 +1348,7 @@ def range_contains(E, st, frame, b, t, c, args):
     xt = x[4] or (E._fconst_term(x) if x[0] == 'F' else None)
     lt = lo[4] or (E._fconst_term(lo) if lo[0] == 'F' else None)
     ht = hi[4] or (E._fconst_term(hi) if hi[0] == 'F' else None)
-    term = A.mkterm('And', A.mkterm('Ge', xt, lt), A.mkterm('Le' if incl else 'Lt', xt, ht))
+    term = A.mkterm('inrange', xt, lt, ht, T('c', 1 if incl else 0))
     nanx = x[0] == 'F' and (x[3] or x[1] > x[2])
     if not nanx:
         d1 = A.cmp_decide('Ge', x, lo)
